@@ -12,6 +12,8 @@ import VsbModel.Model.Config
 import VsbModel.Model.FileReader
 import VsbModel.Model.Restore
 import VsbModel.Model.FsTrace
+import VsbModel.Model.Proto
+import VsbModel.Model.Upload
 
 /-!
 Line-protocol driver for the executable models: one request per line `<op> <json>`, one JSON
@@ -603,6 +605,39 @@ def opRunOps (j : Json) : Except String Json := do
       oldGroups := old }
   pure (Json.arr ((runOps sc).map opJson).toArray)
 
+/-! ## proto (C05) -/
+open Vsb.Proto in
+def parseResp (s : String) : Resp :=
+  match s with
+  | "reject" => .reject | "lost" => .lost | "corrupt" => .corrupt
+  | "pending" => .pending | "opFailed" => .opFailed | _ => .ok
+
+open Vsb.Proto in
+/-- `proto`: {provider, ns:[[name,[tokens]]], tmp, final, payloads:[[tokens]], max, ending, script:[..], depth, polls}
+→ {ok, reqs, ns, renamed}: splitter then provider protocol.  Checksums are an injective fold; "corrupt"
+appends the token 999. -/
+def opProto (j : Json) : Except String Json := do
+  let str (k : String) : Except String String := do (← j.getObjVal? k).getStr?
+  let ns ← (← (← j.getObjVal? "ns").getArr?).toList.mapM (fun a => do
+    let x ← a.getArr?
+    pure ((← (x[0]?.getD Json.null).getStr?), (← natList (x[1]?.getD Json.null))))
+  let script := ((← (← j.getObjVal? "script").getArr?).toList.map (fun x => parseResp (x.getStr?.toOption.getD "ok")))
+  let depth := (← optNat j "depth").getD 3
+  let polls := (← optNat j "polls").getD 600
+  let hP : List Nat → Nat := fun d => d.foldl (fun a x => a * 1000003 + x + 1) 7
+  let c : Cfg Nat Nat := { hP := hP, mangle := fun d => d ++ [999], tmp := ← str "tmp", final := ← str "final", depth := depth, polls := polls }
+  let payloads ← (← (← j.getObjVal? "payloads").getArr?).toList.mapM natList
+  let msgs : List (Vsb.Split.Msg Nat) := payloads.map .payload ++ (match (← str "ending") with
+    | "final" => [.eof (hP payloads.flatten)]
+    | "error" => [.err "upstream"]
+    | _ => [])
+  let p : Provider := match (← str "provider") with
+    | "dropbox" => .dropbox | "yandex" => .yandex | _ => .google
+  let o := Vsb.Upload.pipeline p c (fun k => script.getD k .ok) { ns := ns } (← optNat j "max") msgs
+  pure (Json.mkObj [("ok", o.ok), ("reqs", Json.arr (o.run.log.map (fun (s : String) => (s : Json))).toArray),
+    ("ns", Json.arr (o.run.srv.ns.map (fun e => Json.arr #[(e.1 : Json), natsJson e.2])).toArray),
+    ("renamed", match o.run.renamed with | some d => natsJson d | none => Json.null)])
+
 def dispatch (op : String) (j : Json) : Except String Json :=
   match op with
   | "split" => opSplit j
@@ -618,6 +653,7 @@ def dispatch (op : String) (j : Json) : Except String Json :=
   | "restore" => opRestore j
   | "tracecheck" => opTraceCheck j
   | "runops" => opRunOps j
+  | "proto" => opProto j
   | "cfgload" => opCfgload j
   | "cfgpath" => opCfgpath j
   | "verify" => opVerify j
